@@ -143,11 +143,13 @@ M("p3-shift-conditional-raise", "C02", "fire P3", "src/compile.rs",
                 }
                 bits_unshifted""", "signed shifts by >= width no longer raise")
 M("p4-index-meta", "C02", "fire P4", "src/compile.rs",
-  """                let elem_bits = ty.size_in_bits_for_defs(prg, circuit.const_sizes());
-                let mut array = array.compile(prg, env, circuit);""",
-  """                let elem_bits = ty.size_in_bits_for_defs(prg, circuit.const_sizes());
+  """                    .expect("Found a non-array value in an array access expr");
+                let mut array = array.compile(prg, env, circuit);
+                let mut index = index.compile(prg, env, circuit);""",
+  """                    .expect("Found a non-array value in an array access expr");
                 let meta = index.meta;
-                let mut array = array.compile(prg, env, circuit);""", "out-of-bounds panic reports the index expression's location")
+                let mut array = array.compile(prg, env, circuit);
+                let mut index = index.compile(prg, env, circuit);""", "out-of-bounds panic reports the index expression's location")
 M("p5-no-renumber-end-line", "C02", "fire P5", "src/circuit.rs",
   """        for w in self.panic_gates.result.end_line.iter_mut() {
             *w = shift_gate_index_if_necessary(*w);
@@ -1981,3 +1983,9 @@ M("a6-quiet-results-renamed", "C03", "quiet", "src/circuit.rs",
             carry_prev = carry;
             sum[i] = bit;
             carry = carry_out;""", "behaviour-preserving: locals renamed, statements reordered")
+
+# ---------------------------------------------------------------- C17 T10 / T11 (found on the unchanged tree, repaired)
+REVERT("revert-const-arith-needs-number", "C17", "fire T11", "7d42b08", "pre-fix tree: `const B: bool = true + true` accepted")
+REVERT("revert-array-size-consts-checked", "C17", "fire T10", "83d174a", "pre-fix tree: `[u8; N]` with undeclared / non-usize N accepted")
+REVERT("revert-signed-mul-overflow", "C03", "fire A8", "31f7aba", "pre-fix tree: +2^(bits-1) products of signed multiplication do not panic")
+REVERT("revert-width-adjustment", "C05", "fire S9", "b5e5554", "pre-fix tree: untyped bound numbers keep 32 wires; array reads use the result type as stride")
